@@ -97,12 +97,13 @@ var (
 	sitePreempt []uint32
 	hotSites    []bool
 	pendingHot  bool
+	hotTotal    int64
 
 	// simulated blocking on library locks (see Blocked)
-	epoch      int64            // bumped on every lock release
-	blockedAt  [MaxTasks]int64  // epoch at which the task last failed to acquire
-	nblocked   int64            // task switches forced by a failed acquire
-	deadlocked bool             // every alive task was blocked at the same epoch
+	epoch      int64           // bumped on every lock release
+	blockedAt  [MaxTasks]int64 // epoch at which the task last failed to acquire
+	nblocked   int64           // task switches forced by a failed acquire
+	deadlocked bool            // every alive task was blocked at the same epoch
 
 	freeCounter uint32
 
@@ -351,6 +352,9 @@ func Yield(site int) {
 	if site < len(siteHits) {
 		siteHits[site]++
 	}
+	if site < len(hotSites) && hotSites[site] {
+		hotTotal++
+	}
 	if steps > budget {
 		aborting = true
 		panic(Abort{})
@@ -455,6 +459,9 @@ func Blocked(site int) {
 	steps++
 	if site < len(siteHits) {
 		siteHits[site]++
+	}
+	if site < len(hotSites) && hotSites[site] {
+		hotTotal++
 	}
 	if steps > budget {
 		aborting = true
@@ -610,6 +617,12 @@ func Charge(n int) {
 		steps += int64(n)
 	}
 }
+
+// HotTotal returns the number of hot yield points executed since process start
+// (never reset; callers take differences).
+//
+//go:norace
+func HotTotal() int64 { return hotTotal }
 
 // Steps returns the global logical clock (yield points executed so far).
 //
